@@ -123,13 +123,29 @@ func (hm *HashMap) Query(q *query.Query, local, internal bool) (*iterator.Iterat
 }
 
 func (hm *HashMap) queryExecutor(queryIter *iterator.Iterator, q *query.Query, local, internal bool) {
+	// Take a snapshot of the matching keys and their records and release the
+	// database lock before locking any record: writers hold a record's lock
+	// while they wait for the database lock (see Interface.Put), so locking
+	// records - or waiting for the query consumer - with the database lock held
+	// deadlocks the database.
+	type entry struct {
+		key    string
+		record record.Record
+	}
 	hm.dbLock.RLock()
-	defer hm.dbLock.RUnlock()
+	entries := make([]entry, 0, len(hm.db))
+	for key, r := range hm.db {
+		if q.MatchesKey(key) {
+			entries = append(entries, entry{key, r})
+		}
+	}
+	hm.dbLock.RUnlock()
 
 	var err error
 
 mapLoop:
-	for key, record := range hm.db {
+	for _, e := range entries {
+		key, record := e.key, e.record
 		record.Lock()
 		if !q.MatchesKey(key) ||
 			!q.MatchesRecord(record) ||
